@@ -1,65 +1,36 @@
+//! C19 — Formatting preserves program meaning (token sequence modulo documented cosmetic
+//! rewrites) and comments. Same input space as C18; comparator and classifier in `vh_text::fmtgen`.
 use vh_text::fmtgen::*;
+
+const ORACLE: &str = "fmt(x) parses; tokens(fmt(x)) == tokens(x) modulo whitespace and the cosmetic rules N1-N4 (trailing commas, comma after last where bound, use-group order/single-item braces, parentheses around a single type); comments(fmt(x)) == comments(x) as ordered lists; no panic";
 
 fn main() {
     let a = vhcore::parse_args();
     vhcore::silence_panics();
     let code = match a.cmd.as_str() {
-        "probe" => probe(&a),
-        _ => vhcore::machinery_failure("usage"),
+        "check" => run_check(&a, ORACLE, c19_check),
+        "replay" => replay(&a, c19_check),
+        "norm" => {
+            let src = std::fs::read_to_string(&a.rest[0]).unwrap();
+            let l = lex(&src).unwrap();
+            for e in &l.els {
+                print!("{}{} ", &src[e.start..e.end], if e.joint { "~" } else { "" });
+            }
+            println!();
+            for t in normalised(&l) {
+                print!("{} ", t.text);
+            }
+            println!();
+            0
+        }
+        "case" => {
+            let src = std::fs::read_to_string(&a.rest[0]).unwrap();
+            let cfg = config_by_name(a.rest.get(1).map(|s| s.as_str()).unwrap_or("default")).unwrap();
+            let o = c19_check(&src, &cfg);
+            println!("{o:#?}");
+            0
+        }
+        _ => vhcore::machinery_failure("usage: c19 check C19 --tier quick|thorough | replay C19 <file>"),
     };
     std::process::exit(code);
-}
-
-fn probe(a: &vhcore::Args) -> i32 {
-    let files = vhcore::corpus_sw_files();
-    let cfgs = configs();
-    let t = std::time::Instant::now();
-    let res = vhcore::par_map(&files, a.jobs, |p| {
-        let Ok(src) = std::fs::read_to_string(p) else { return vec![] };
-        let mut out = vec![];
-        let Some(lx) = lex(&src) else { return vec![format!("UNLEXABLE {}", p.display())] };
-        let nx = normalised(&lx);
-        for (name, c) in &cfgs {
-            if let FmtOut::Ok(f1) = fmt(&src, c) {
-                let Some(la) = lex(&f1) else {
-                    out.push(format!("OUT-UNLEXABLE {name} {}", p.display()));
-                    continue;
-                };
-                let na = normalised(&la);
-                if let Some(d) = token_diff(&nx, &na) {
-                    let key = classify_token_diff(&lx, &la, &nx, &d);
-                    out.push(format!("TOK {name} {} {key}", p.display()));
-                }
-                let (cx, ca) = (lx.comments(), la.comments());
-                if cx != ca {
-                    let (lost, gained) = comment_diff(&cx, &ca);
-                    let ci = comment_idxs(&lx);
-                    for l in lost.iter().take(3) {
-                        let (p0, q0) = neighbours(&lx, ci[*l]);
-                        out.push(format!(
-                            "COMMENT-LOST {name} {} {} | {p0}^{}^{q0} | {:?}",
-                            p.display(),
-                            context_chain(&lx, ci[*l], 1),
-                            abs_el(&lx, ci[*l]),
-                            cx[*l]
-                        ));
-                    }
-                    for g in gained.iter().take(3) {
-                        out.push(format!("COMMENT-GAINED {name} {} {:?}", p.display(), ca[*g]));
-                    }
-                }
-                if !parses(&f1) {
-                    out.push(format!("OUT-UNPARSEABLE {name} {}", p.display()));
-                }
-            }
-        }
-        out
-    });
-    for o in &res {
-        for l in o {
-            println!("{l}");
-        }
-    }
-    println!("files={} wall={:?}", files.len(), t.elapsed());
-    0
 }
